@@ -253,9 +253,23 @@ def run(tier: str, rng: random.Random, proof_ok: bool) -> dict:
             violations.append({"kind": "oracle", "signature": sig, "what": what, "replay_case": rc})
 
     n = 500 if tier == "quick" else 12000
-    for _ in range(n):
-        lazy = [G.gen_validator(rng, 0)]
-        t = G.gen_validator(rng, rng.choice([0, 1, 2, 2, 3]), lazy_n=1)
+    # explicit: every wrapper form, recurrent and not, bare and inside each container (a definition's thunk is one
+    # object per definition - "the same arguments")
+    _INT = ("Scalar", ("KInt",), None, [], [], [])
+    _STR = ("Scalar", ("KStr",), None, [], [], [])
+    explicit = []
+    for rec_ in (False, True):
+        lz = ("LazyV", N(0), rec_)
+        explicit += [lz, ("ListV", lz, [], [], None), ("OptionalV", ("NoneV", None), lz), ("MapV", _STR, lz, [], [], None),
+                     ("UnionV", [_STR, lz]), ("SetV", lz, [], [], None), ("NTupleV", [lz, _INT], None, None), ("MaybeV", lz), ("CacheV", lz),
+                     ("DictAnyV", [P(G.S("a"), lz), P(G.S("b"), ("KeyNotRequired", lz))], None, None, False)]
+    plan = [([_INT], t_) for t_ in explicit] + [None] * n
+    for item in plan:
+        if item is not None:
+            lazy, t = item
+        else:
+            lazy = [G.gen_validator(rng, 0)]
+            t = G.gen_validator(rng, rng.choice([0, 1, 2, 2, 3]), lazy_n=1)
         # (1) independent rebuild: equal, same repr, repr stable
         try:
             ctx = Ctx(G.STD_CLASSES, lazy, random.Random(7))
